@@ -167,7 +167,8 @@ class SaltStrings(Part):
         res = Res()
         js = mod()
         plains = ["", "a", "netconanRemoved12", "".join(chr(c) for c in range(0, 256, 5)), "\x00\xff" * 9,
-                  "p" * 64, "seed%d" % self.seed]
+                  "p" * 64, "seed%d" % self.seed, "q" * 1500, "".join(chr(33 + i % 90) for i in range(5000)),
+                  "".join(chr(i % 256) for i in range(20000))]
         salts = [c + "tail" for c in ALPH] + ["saltForTest", "", None, " x", "!", "é", "中文", "\t", "$9$",
                                               "~", "\\", "\x00"]
         for salt in salts[case["k"]::4]:
@@ -252,6 +253,10 @@ class Decoder(Part):
                 judge_decode(res, js, s, {"s": s}, "inserted-newline")
             res.samples.append({"ciphertext": c, "plain": plain})
         else:
+            longc = refs.j9_encode("".join(chr(40 + i % 80) for i in range(6000)), "Q")
+            for cut in (1, 2, 3, 7, 5000):
+                judge_decode(res, js, longc[:-cut], {"s": longc[:-cut]}, "truncated-long")
+            judge_decode(res, js, longc, {"s": longc}, "long")
             for s in ["", "$9$", "$9", "9$abcd", "$8$abcd", "$9$abcd\n", "$9$abcd\r\n", "\n$9$abcd", "$9$ abcd",
                       "$9$abcd ", "$9$" + "Q" * 3, "$9$" + "Q" * 4, "$9$i", "$9$iiii", None, 5, b"$9$abcd"]:
                 if isinstance(s, str):
